@@ -227,6 +227,27 @@ def check_clear_state(program, rep):
                 if norm(t).startswith('self.') and isinstance(
                         v, (ast.List, ast.Dict, ast.Set, ast.Call)):
                     made.append(norm(t))
+    # only state that can keep user objects (handlers, event arguments)
+    # reachable or registered matters: the listener tables and every
+    # container that receives the arguments of a dispatch
+    def _holds_user_objects(name):
+        attr = name.split('.', 1)[1]
+        if name in (evrules.EVENTS, evrules.HANDLERS, evrules.QUEUE):
+            return True
+        for m in disp.methods.values():
+            ps = set(m.params()[1:])
+            for n in ast.walk(m.node):
+                if isinstance(n, ast.Call) and isinstance(
+                        n.func, ast.Attribute) and n.func.attr in (
+                            'append', 'add', 'appendleft', 'extend',
+                            'insert', 'setdefault', 'update') \
+                        and norm(n.func.value) == name and any(
+                            isinstance(x, ast.Name) and x.id in ps
+                            and x.id in ('args', 'kwargs')
+                            for a_ in n.args for x in ast.walk(a_)):
+                    return True
+        return False
+    made = [m_ for m_ in made if _holds_user_objects(m_)]
     cleared = set()
     for n in ast.walk(cl.node):
         if isinstance(n, ast.Call) and isinstance(n.func, ast.Attribute) \
